@@ -295,6 +295,21 @@ func (e *Encoder) encodeComplex(x starlark.Value) {
 			}
 		}
 
+	case starlark.Iterable:
+		// An iterable of unknown length (the codepoints of a string, the elements of a bytes value): encoded as the
+		// list of its elements, one APPEND per element.
+		e.w.WriteByte(opEMPTY_LIST)
+		e.memoize(x)
+
+		it := x.Iterate()
+		defer it.Done()
+
+		var el starlark.Value
+		for it.Next(&el) {
+			e.encode(el)
+			e.w.WriteByte(opAPPEND)
+		}
+
 	case starlark.HasAttrs:
 		e.w.WriteByte(opEMPTY_DICT)
 		e.memoize(x)
